@@ -116,3 +116,63 @@ Proof.
   replace (addr + 6 + 1) with (addr + 7) by blia.
   rewrite Hloop. cbn [obind]. reflexivity.
 Qed.
+
+(* one continuation chunk, spelled out *)
+Lemma chain_roundtrip_one_cont os ls sbBE (pre : bytes) flags a0 b0 k (suf : bytes) :
+  wf_chain os ls flags a0 b0 [k] = true ->
+  let file := build_chain os ls sbBE pre flags a0 b0 [k] suf in
+  blen file < 9223372036854775808 -> blen file < 256 ^ os -> blen file < 256 ^ ls ->
+  dec_ohdr_c os ls sbBE file (blen pre) = Ok (proj_chain os ls sbBE (blen pre) flags a0 b0 [k]).
+Proof. intros. apply chain_roundtrip; auto. discriminate. Qed.
+
+(* ---- the hypotheses are satisfiable: two continuation chunks, seven messages ---- *)
+Definition ex_m (t : N) (d : bytes) : hmsg := {| hm_type := t; hm_data := d |}.
+Definition ex_ks : list ochk :=
+  [ {| k_between := [9; 9; 9]; k_a := [ex_m 13 [0; 65; 66]]; k_b := [ex_m 1 [5]]; k_gap := [0; 0]; k_ck := [1; 2; 3; 4] |};
+    {| k_between := []; k_a := [ex_m 22 [7; 0; 0; 0]]; k_b := []; k_gap := []; k_ck := [1; 2; 3; 4] |} ].
+Definition ex_file : bytes := build_chain 8 8 false [0; 0; 0; 0; 0] 8 [ex_m 1 [1; 2; 3]] [ex_m 3 [4]] ex_ks [].
+
+Lemma chain_example :
+  wf_chain 8 8 8 [ex_m 1 [1; 2; 3]] [ex_m 3 [4]] ex_ks = true /\
+  blen ex_file = 105 /\
+  omap (fun o => (ohp_refcount o, ohp_name o, map hmp_type (ohp_msgs o), map hmp_offset (ohp_msgs o)))
+       (dec_ohdr_c 8 8 false ex_file 5)
+  = Ok (7, [65; 66], [1; 16; 3; 13; 16; 1; 22], [12; 19; 39; 51; 58; 78; 93]) /\
+  dec_ohdr_c 8 8 false ex_file 5 = Ok (proj_chain 8 8 false 5 8 [ex_m 1 [1; 2; 3]] [ex_m 3 [4]] ex_ks) /\
+  dec_ohdr false ex_file 5 = Err.
+Proof. vm_compute. repeat split; reflexivity. Qed.
+
+(* ---- the reader's refusals ---- *)
+Definition ochk_min : bytes := OCHK ++ [1; 1; 0; 0; 85] ++ [0; 0; 0; 0].     (* a 13-byte chunk: one message *)
+
+(* a chunk whose linking message names the chunk itself (address 27, already visited): error, no loop *)
+Lemma cont_cycle_refused :
+  dec_ohdr_c 8 8 false
+    (build_chain 8 8 false [] 0 [] []
+       [ {| k_between := []; k_a := []; k_b := [cont_msg 8 8 false 27 28]; k_gap := []; k_ck := [0; 0; 0; 0] |} ] []) 0 = Err.
+Proof. vm_compute. reflexivity. Qed.
+
+(* two chunks naming each other *)
+Lemma cont_cycle2_refused :
+  dec_ohdr_c 8 8 false
+    (build_chain 8 8 false [] 0 [] []
+       [ {| k_between := []; k_a := []; k_b := []; k_gap := []; k_ck := [0; 0; 0; 0] |};
+         {| k_between := []; k_a := []; k_b := [cont_msg 8 8 false 27 28]; k_gap := []; k_ck := [0; 0; 0; 0] |} ] []) 0 = Err.
+Proof. vm_compute. reflexivity. Qed.
+
+(* size below 8 is refused; the same file with the right size is read *)
+Lemma cont_short_size_refused :
+  dec_ohdr_c 8 8 false (build_chain 8 8 false [] 0 [] [cont_msg 8 8 false 27 7] [] ochk_min) 0 = Err /\
+  oclass (dec_ohdr_c 8 8 false (build_chain 8 8 false [] 0 [] [cont_msg 8 8 false 27 13] [] ochk_min) 0) = 0.
+Proof. vm_compute. split; reflexivity. Qed.
+
+(* no "OCHK" at the named address *)
+Lemma cont_bad_signature_refused :
+  dec_ohdr_c 8 8 false (build_chain 8 8 false [] 0 [] [cont_msg 8 8 false 28 12] [] ochk_min) 0 = Err /\
+  dec_ohdr_c 8 8 false (build_chain 8 8 false [] 0 [] [cont_msg 8 8 false 27 13] [] ([79; 67; 72; 88] ++ skipn 4 ochk_min)) 0 = Err.
+Proof. vm_compute. split; reflexivity. Qed.
+
+(* the chunk lies beyond the end of the file *)
+Lemma cont_beyond_file_refused :
+  dec_ohdr_c 8 8 false (build_chain 8 8 false [] 0 [] [cont_msg 8 8 false 1000 13] [] ochk_min) 0 = Err.
+Proof. vm_compute. reflexivity. Qed.
